@@ -9,3 +9,6 @@ for p in "$@"; do
 done
 git -C /repo checkout -- .
 git -C /repo status --short
+# restore what the runs above regenerated from the MUTATED source: generated Coq files and evidence must never be committed from such a run
+python3 translator/rs2v.py --repo /repo --coq coq > /dev/null 2>&1
+git -C /verif checkout -- evidence 2>/dev/null
